@@ -1094,7 +1094,8 @@ pub fn c19_instances(tier: Tier) -> Vec<Instance> {
             i.allow_eof = true;
             i.cancel_budget = if tier == Tier::Thorough { 4 } else { 2 };
             i.pending_budget = 1;
-            i.tick_budget = if seq.len() <= 2 || tier == Tier::Thorough { 2 } else { 0 };
+            // (single frames: four steps, so that 90 s can pass across a dropped read while no single read has waited that long)
+            i.tick_budget = if seq.len() == 1 { 4 } else if seq.len() <= 2 || tier == Tier::Thorough { 2 } else { 0 };
             // a transport whose flush takes two more polls: free on a connection that never flushes
             i.slow_flush = 2;
             if seq.len() <= 2 {
